@@ -89,7 +89,7 @@ func main() {
 	if v, err := strconv.Atoi(os.Getenv("VERIF_C14_LINKS")); err == nil {
 		links = v
 	}
-	nOoo, nInproc := run.N(16, 240), run.N(12, 160)
+	nOoo, nInproc := run.N(6, 150), run.N(5, 100)
 	switch os.Getenv("VERIF_C14_ONLY") {
 	case "stops":
 		nBase, directed, nOoo, nInproc = 0, false, 0, 0
@@ -101,8 +101,14 @@ func main() {
 	if !run.Quick() {
 		depth = 3
 	}
+	// the cluster scenarios (CPU-bound: every start scans 16384 slot tags) run alongside the sweep
+	clusterDone := make(chan struct{})
+	go func() {
+		defer close(clusterDone)
+		bisweep.ClusterScenarios(run, bisweep.ClusterOptions{NOutOfOrder: nOoo, NInProcess: nInproc, Workers: 6, Driver: d})
+	}()
 	bisweep.Explore(run, bisweep.Options{Prop: "C14", NBase: nBase, Depth: depth, DeepPct: 12, Workers: 6,
 		Driver: d, Factory: bisweep.NewStandalone, Directed: directed, NStops: nStops, StopLinks: links})
-	bisweep.ClusterScenarios(run, bisweep.ClusterOptions{NOutOfOrder: nOoo, NInProcess: nInproc, Workers: 8, Driver: d})
+	<-clusterDone
 	run.Exit()
 }
